@@ -37,6 +37,38 @@ class HarnessError(Exception):
 
 
 CUR = None  # the active Scheduler (one per process at a time)
+
+
+class _Carrier:
+    """Reusable OS thread that carries virtual threads (thread creation is the scaling bottleneck
+    on this VM: 60 us alone, >1 ms with 16 busy processes)."""
+
+    def __init__(self):
+        self.lock = _thread.allocate_lock()
+        self.lock.acquire()
+        self.job = None
+        _thread.start_new_thread(self.loop, ())
+
+    def loop(self):
+        while True:
+            self.lock.acquire()
+            job, self.job = self.job, None
+            try:
+                job()
+            except BaseException:  # noqa
+                pass
+            _pool.append(self)
+
+
+_pool = []
+import os as _os  # noqa: E402
+_os.register_at_fork(after_in_child=_pool.clear)
+
+
+def _run_on_carrier(job):
+    c = _pool.pop() if _pool else _Carrier()
+    c.job = job
+    c.lock.release()
 _degraded_now = [EPOCH]
 
 
@@ -200,7 +232,7 @@ class Scheduler:
                         pass
 
         t.started = True
-        _thread.start_new_thread(boot, ())
+        _run_on_carrier(boot)
         return t
 
     # ------------------------------------------------------------------ core
